@@ -113,7 +113,7 @@ func (t *smallHuffCodeTable) GenerateForHeader(codes []huffCode, count []uint16,
 				tempCodeLength++
 			}
 		}
-		for x := longCodeLookupLength; x < longCodeLookupLength+2*(1<<(maxLength-distLookupBits)); x++ {
+		for x := longCodeLookupLength; x < longCodeLookupLength+(1<<(maxLength-distLookupBits)); x++ {
 			t.LongCodeLookup[x] = 0
 		}
 
